@@ -490,41 +490,48 @@ Definition out_mres (r : mres) : list Z :=
   | MExn (XOther k) => [3; k; 0]
   end.
 
+(* cfg + ctx tokens (shared with ConnRecv.exec_packet) *)
+Definition rd_cfg_ctx (t : list Z) : option (tcfg * tctx * list Z) :=
+  let '(suites, t) := tk_list t in
+  let '(sigs, t) := tk_list t in
+  let '(alpn, t) := match t with
+                    | 0 :: t => (None, t)
+                    | _ :: n :: t => let '(l, t) := rd_lists (Z.to_nat n) t in (Some l, t)
+                    | _ => (None, [])
+                    end in
+  let '(ksigs, t) := tk_list t in
+  match t with
+  | verify :: reqcert :: acb :: fetcher :: tcb :: x25519 :: x448 :: t =>
+      let '(ec, t) := tk_list t in
+      let '(psk, t) := tk_opt t in
+      let g := mkCfg suites sigs alpn ksigs (z2b verify) (z2b reqcert) (z2b acb) (z2b fetcher) (z2b tcb)
+                     (z2b x25519) (z2b x448) ec psk in
+      match t with
+      | state :: t =>
+          let '(buf, t) := tk_list t in
+          match t with
+          | resumed :: t =>
+              let '(kpsk, t) := tk_opt t in
+              match t with
+              | kproxy :: gen :: pc :: t =>
+                  Some (g, mkCtx (state_of_val state) buf (z2b resumed) kpsk (z2b kproxy) gen (z2b pc), t)
+              | _ => None
+              end
+          | _ => None
+          end
+      | _ => None
+      end
+  | _ => None
+  end.
+
 Definition exec_tlsrecv (t : list Z) : list Z :=
   match t with
   | patched :: t =>
-      let '(suites, t) := tk_list t in
-      let '(sigs, t) := tk_list t in
-      let '(alpn, t) := match t with
-                        | 0 :: t => (None, t)
-                        | _ :: n :: t => let '(l, t) := rd_lists (Z.to_nat n) t in (Some l, t)
-                        | _ => (None, [])
-                        end in
-      let '(ksigs, t) := tk_list t in
-      match t with
-      | verify :: reqcert :: acb :: fetcher :: tcb :: x25519 :: x448 :: t =>
-          let '(ec, t) := tk_list t in
-          let '(psk, t) := tk_opt t in
-          let g := mkCfg suites sigs alpn ksigs (z2b verify) (z2b reqcert) (z2b acb) (z2b fetcher) (z2b tcb)
-                         (z2b x25519) (z2b x448) ec psk in
-          match t with
-          | state :: t =>
-              let '(buf, t) := tk_list t in
-              match t with
-              | resumed :: t =>
-                  let '(kpsk, t) := tk_opt t in
-                  match t with
-                  | kproxy :: gen :: pc :: n :: t =>
-                      let '(orcs, t) := rd_orcs (Z.to_nat n) t in
-                      let '(data, _) := tk_list t in
-                      let c := mkCtx (state_of_val state) buf (z2b resumed) kpsk (z2b kproxy) gen (z2b pc) in
-                      out_mres (handle_message (z2b patched) g c orcs data)
-                  | _ => []
-                  end
-              | _ => []
-              end
-          | _ => []
-          end
+      match rd_cfg_ctx t with
+      | Some (g, c, n :: t) =>
+          let '(orcs, t) := rd_orcs (Z.to_nat n) t in
+          let '(data, _) := tk_list t in
+          out_mres (handle_message (z2b patched) g c orcs data)
       | _ => []
       end
   | _ => []
